@@ -80,6 +80,14 @@ class FilterSeq(Unit):
             pts = [[float(i), float(n - i)] for i in range(n)]
             pts += [[0.0, float(n)], [1.0, float(n) + 1.0], [float(n // 2), float(n - n // 2)], [0.5, float(n) - 0.5]]
             cases.append({"pts": pts})
+        # hair-thin fronts: mutually non-dominated points that differ by a few units of 2^-44 (far below any rounding
+        # to decimals), then probes that are dominated / dominating by exactly one such unit
+        for e in (-44, -40, -47):
+            h = 2.0 ** e
+            pts = [[1.0 + k * h, 1.0 - k * h] for k in (3, 0, 6, 1, 7, 2, 5, 4)]
+            pts += [[1.0 + 2 * h, 1.0 - 1 * h], [1.0 + 1 * h, 1.0 - 2 * h], [1.0 + 3 * h, 1.0 - 3 * h], [1.0 + 8 * h, 1.0 - 9 * h],
+                    [1.0 - h, 1.0 - 8 * h]]
+            cases.append({"pts": pts})
         return cases
 
     def impl(self, case):
